@@ -8,6 +8,7 @@ floating-point arithmetic); the statistics theorems are over `Rat`.
 import Flax.Model.Layers
 import Flax.Proofs.Layers
 import Flax.Proofs.LayersStats
+import Flax.Proofs.LayersConv
 
 namespace Flax.C12
 open Flax.Layers
@@ -677,31 +678,22 @@ geometry handed to `reduce_window` has one padding entry per axis -/
 theorem pool_explicit_padding_accepted (shape window strides : List Nat) (ps : List (Nat × Nat))
     (hr : window.length + 1 ≤ shape.length) (hs : strides = [] ∨ strides.length = window.length)
     (hp : ps.length = window.length) :
-    (poolGeom shape window strides (.explicit ps)).toBool = true := by
+    poolGeom shape window strides (.explicit ps) = .ok (poolGeomCore false shape window strides (.explicit ps)) := by
   have h1 : ¬ (shape.length < window.length + 1) := by omega
-  have h2 : (if strides = [] then List.replicate window.length 1 else strides).length = window.length := by
+  have h2 : ¬ ((if strides.isEmpty then List.replicate window.length 1 else strides).length ≠ window.length) := by
     rcases hs with h | h
     · simp [h]
-    · by_cases he : strides = []
+    · by_cases he : strides.isEmpty = true
       · simp [he]
       · simp [he, h]
-  by_cases hsingle : shape.length - (window.length + 1) = 0
-  · simp [poolGeom, poolGeomGen, h1, hp, hsingle, bind, Except.bind, pure, Except.pure, Except.toBool]
-    split
-    · rfl
-    · rename_i h
-      rw [if_pos h2] at h
-      have e : window.length + 1 = shape.length := by omega
-      rw [if_pos e] at h
-      cases h
-  · simp [poolGeom, poolGeomGen, h1, hp, hsingle, bind, Except.bind, pure, Except.pure, Except.toBool]
-    split
-    · rfl
-    · rename_i h
-      rw [if_pos h2] at h
-      have e : shape.length - (window.length + 1) + (window.length + 1) = shape.length := by omega
-      rw [if_pos e] at h
-      cases h
+  have h3 : ¬ (ps.length ≠ window.length) := by omega
+  have h4 : ¬ ((poolGeomCore false shape window strides (.explicit ps)).2.2.pads.length
+      ≠ (poolGeomCore false shape window strides (.explicit ps)).2.1.length) := by
+    simp only [poolGeomCore, poolPadSp, Bool.false_eq_true, if_false]
+    by_cases hsingle : shape.length - (window.length + 1) = 0
+    · simp [hsingle, hp]; omega
+    · simp [hsingle, hp]; omega
+  simp only [poolGeom, poolGeomGen, bind, Except.bind, pure, Except.pure, h1, h2, h3, h4, if_false]
 
 /-- `Embed` with a single row and a scalar index: the code as found broadcast the 2-D table and failed; repaired, it
 returns the row -/
@@ -770,7 +762,126 @@ example : (groupNormPieces (⟨[2, 3, 4], (List.range 24).map (fun i => (i : Int
 
 end groupnorm
 
-/-! ### pooling (`pool_is_window_reduction`) -/
+/-! ### the whole convolution layer, any number of spatial axes (`pad_index_maps` lifted to the N-d executable) -/
+
+section convlayer
+variable {R : Type} [Zero R] [Add R] [Mul R]
+
+/-- `Conv` / `nnx.Conv` (shared weights) as a whole: batch flatten → per-axis `jnp.pad` chosen by the padding mode →
+`lax.conv_general_dilated` with the masked kernel → bias → batch unflatten.  Whenever the layer accepts the
+configuration, for every number of spatial axes, every number of batch dimensions (none, one, several), every padding
+mode, stride, input / kernel dilation, group count, mask and bias, the output element at batch multi-index `b`, spatial
+position `o` and feature `fi` is the direct sum (`convElem`)
+
+  `Σ_{kk ∈ kernel offsets} Σ_{ch < C/groups} xval(b, src(o, kk), grp·C/groups + ch) · (K·mask)[kk, ch, fi]  (+ bias[fi])`
+
+where `src(o, kk)` is the product of per-axis index maps: on each axis the lax map `axisSrc` (stride, dilations,
+explicit pads; `convSrc`) into the pre-padded axis followed by that axis' `jnp.pad` map `padSrc` (`padIdx`; wrap for
+CIRCULAR, reflect for REFLECT, zero fill on the left for CAUSAL, identity otherwise), and `xval` is 0 in zero fill.
+`conv_sources_per_axis` states the per-axis factorisation; the one-axis `circular/reflect/causal_conv_formula`,
+equivariance and causality theorems describe each factor. -/
+theorem conv_layer_formula (c : ConvCfg) (x k : Tensor R) (bias mask : Option (Tensor R)) (out : Tensor R)
+    (hok : convLayer c x k bias mask = .ok out)
+    (bs insp : List Nat) (cin : Nat)
+    (hx : x.shape = bs ++ (insp ++ [cin])) (hinsp : insp.length = c.kernelSize.length)
+    (hbias : ∀ bb, bias = some bb → bb.rank = 1)
+    (hfeat : nth k.shape (c.kernelSize.length + 1) % c.groups = 0)
+    (b o : List Nat) (fi : Nat) (hb : inBounds bs b = true) (ho : o.length = c.kernelSize.length)
+    (hfi : fi < nth k.shape (c.kernelSize.length + 1))
+    (hbound : inBounds out.shape (b ++ (o ++ [fi])) = true) :
+    k.shape.take c.kernelSize.length = c.kernelSize ∧ nth k.shape c.kernelSize.length = cin / c.groups ∧
+    out.get (b ++ (o ++ [fi])) =
+      bias.elim (convElem c x (mulMaskCore k mask) insp b o fi)
+        (fun bb => convElem c x (mulMaskCore k mask) insp b o fi + bb.get [fi]) := by
+  -- acceptance: the guards hold and the result is the core value
+  have hy : out = convCore c x k bias mask ∧ convCheck c x k mask = .ok () := by
+    simp only [convLayer, bind, Except.bind, pure, Except.pure] at hok
+    cases hc : convCheck c x k mask with
+    | error e => simp [hc] at hok
+    | ok u => simp only [hc, Except.ok.injEq] at hok; exact ⟨hok.symm, rfl⟩
+  obtain ⟨hout, hc⟩ := hy
+  subst hout
+  · 
+    have hlast : nth x.shape (x.rank - 1) = cin := by
+      simp [Tensor.rank, hx, nth, ← List.append_assoc]
+    have hfacts : (c.groups ≠ 0 ∧ cin % c.groups = 0) ∧
+        (k.shape.take c.kernelSize.length = c.kernelSize ∧ nth k.shape c.kernelSize.length = cin / c.groups) := by
+      simp only [convCheck, bind, Except.bind, pure, Except.pure, throw, throwThe, MonadExceptOf.throw, hlast] at hc
+      by_cases h1 : x.rank < c.kernelSize.length + 1
+      · simp [h1] at hc
+      · simp only [h1, if_false] at hc
+        cases hpc : convPadCheck c with
+        | error e => simp [hpc] at hc
+        | ok v =>
+          simp only [hpc] at hc
+          by_cases h2 : c.groups = 0 ∨ cin % c.groups ≠ 0
+          · simp [h2] at hc
+          · by_cases h3 : k.shape.take c.kernelSize.length ≠ c.kernelSize ∨ nth k.shape c.kernelSize.length ≠ cin / c.groups
+            · simp [h2, h3] at hc
+            · constructor
+              · constructor
+                · intro h; exact h2 (Or.inl h)
+                · by_contra h; exact h2 (Or.inr h)
+              · constructor
+                · by_contra h; exact h3 (Or.inl h)
+                · by_contra h; exact h3 (Or.inr h)
+    obtain ⟨⟨hg0, hcin⟩, hks, hcg⟩ := hfacts
+    refine ⟨hks, hcg, ?_⟩
+    apply convCore_get c x k bias mask bs insp cin hx hinsp hbias b o fi hb ho hbound
+    intro ch hch
+    -- the channel of group `fi / (F/groups)` is a valid input channel
+    set F := nth k.shape (c.kernelSize.length + 1) with hF
+    set cg := nth k.shape c.kernelSize.length with hcgd
+    have hFg : c.groups * (F / c.groups) = F := Nat.mul_div_cancel' (Nat.dvd_of_mod_eq_zero hfeat)
+    have hcing : c.groups * (cin / c.groups) = cin := Nat.mul_div_cancel' (Nat.dvd_of_mod_eq_zero hcin)
+    have hfg0 : F / c.groups ≠ 0 := by
+      intro h0
+      have : F = 0 := by rw [← hFg, h0, Nat.mul_zero]
+      omega
+    simp only [hfg0, if_false]
+    have hgrp : fi / (F / c.groups) < c.groups := by
+      apply (Nat.div_lt_iff_lt_mul (Nat.pos_of_ne_zero hfg0)).mpr
+      rw [hFg]; exact hfi
+    rw [hcg] at hch ⊢
+    calc fi / (F / c.groups) * (cin / c.groups) + ch < fi / (F / c.groups) * (cin / c.groups) + cin / c.groups := by omega
+      _ = (fi / (F / c.groups) + 1) * (cin / c.groups) := by ring
+      _ ≤ c.groups * (cin / c.groups) := Nat.mul_le_mul_right _ hgrp
+      _ = cin := hcing
+
+omit [Zero R] [Add R] [Mul R] in
+/-- the source multi-index is the product of per-axis maps: the lax map yields `p` exactly when each axis' `axisSrc` yields
+`p[j]`, and the `jnp.pad` map yields `s` exactly when each axis' `padSrc` yields `s[j]` -/
+theorem conv_sources_per_axis (g : ConvGeom) (sp' o kk p : List Nat) (insp : List Nat) (sp : List (PadMode × Nat × Nat)) (s : List Nat) :
+    (convSrc g sp' o kk = some p ↔
+      (List.range sp'.length).map (fun j => axisSrc (nth sp' j) (nth g.lhsDil j) (g.pads.getD j (0, 0)).1
+        ((nth o j 0 : Int) * (nth g.strides j) + (nth kk j 0 : Int) * (nth g.rhsDil j))) = p.map some) ∧
+    (padIdx insp sp p = some s ↔
+      List.zipWith (fun (np : Nat × (PadMode × Nat × Nat)) i => padSrc np.2.1 np.1 np.2.2.1 i) (insp.zip sp) p = s.map some) :=
+  ⟨mapM_id_some_iff _ _, mapM_id_some_iff _ _⟩
+
+/-- what the padding mode decides (`convPlan`): CIRCULAR / REFLECT pre-pad every spatial axis by `((k_d−1)//2, k_d//2)` in wrap /
+reflect mode and convolve VALID; CAUSAL zero-pads `d(k−1)` on the left; SAME / VALID / explicit pairs pre-pad nothing -/
+theorem conv_plan_modes (c : ConvCfg) (insp : List Nat) :
+    (c.padding = .circular → convPlan c insp =
+      ((List.range c.kernelSize.length).map (fun j => (PadMode.wrap, centrePads (nth c.kernelSize j) (nth c.kernelDil j))),
+       List.replicate c.kernelSize.length (0, 0))) ∧
+    (c.padding = .reflect → convPlan c insp =
+      ((List.range c.kernelSize.length).map (fun j => (PadMode.reflect, centrePads (nth c.kernelSize j) (nth c.kernelDil j))),
+       List.replicate c.kernelSize.length (0, 0))) ∧
+    (c.padding = .causal → convPlan c insp =
+      ((List.range c.kernelSize.length).map (fun j => (PadMode.zeros, causalPad (nth c.kernelSize j) (nth c.kernelDil j))),
+       List.replicate c.kernelSize.length (0, 0))) ∧
+    (c.padding = .valid → convPlan c insp =
+      (List.replicate c.kernelSize.length (PadMode.zeros, 0, 0), List.replicate c.kernelSize.length (0, 0))) ∧
+    (∀ ps, c.padding = .explicit ps → convPlan c insp = (List.replicate c.kernelSize.length (PadMode.zeros, 0, 0), ps)) := by
+  refine ⟨?_, ?_, ?_, ?_, ?_⟩ <;> intro h <;> (try intro h') <;> simp_all [convPlan]
+
+example : (convLayer ⟨[3], [2], .circular, [1], [2], 1⟩ (⟨[2, 1, 5, 1], #[1, 2, 3, 4, 5, 6, 7, 8, 9, 10]⟩ : Tensor Int)
+    ⟨[3, 1, 1], #[1, 10, 100]⟩ (some ⟨[1], #[7]⟩) none).toBool = true := by decide
+
+end convlayer
+
+/-! ### pooling (`pool_is_window_reduction`, `avg_pool_divisor`, max/min ignore padding) -/
 
 section pool
 variable {R : Type} [Zero R] [Add R] [Mul R]
@@ -784,15 +895,70 @@ theorem pool_is_window_reduction (x : Tensor R) (g : PoolGeom) (o : List Nat)
   simp only [sumPool]
   exact get_ofFn _ _ h
 
-/-- `avg_pool(count_include_pad=False)` divides by the number of in-range window positions, which never exceeds the
-window size `prod(window)` used by `count_include_pad=True` -/
+/-- the geometry `pool` hands to `lax.reduce_window`, for every padding form: window and stride 1 on every batch axis and
+on the feature axis, `(0,0)` padding there, and on the spatial axes no padding for `'VALID'`, the lax SAME rule for
+`'SAME'`, the given `(lo, hi)` pairs for explicit padding (repaired code: for any number of batch dimensions) -/
+theorem pool_geometry (shape window strides : List Nat) (pad : PoolPad) (r : Bool × List Nat × PoolGeom)
+    (h : poolGeom shape window strides pad = .ok r) :
+    let nb' := if shape.length - (window.length + 1) = 0 then 1 else shape.length - (window.length + 1)
+    let strides' := if strides.isEmpty then List.replicate window.length 1 else strides
+    let sp := ((if shape.length - (window.length + 1) = 0 then 1 :: shape else shape).drop nb').take window.length
+    r.2.2.window = List.replicate nb' 1 ++ window ++ [1] ∧
+    r.2.2.strides = List.replicate nb' 1 ++ strides' ++ [1] ∧
+    r.2.2.pads = List.replicate nb' (0, 0) ++ poolPadSp pad sp window strides' ++ [(0, 0)] ∧
+    poolPadSp .valid sp window strides' = List.replicate window.length (0, 0) ∧
+    poolPadSp .same sp window strides' = (List.range window.length).map (fun j => samePads (nth sp j) (nth window j) (nth strides' j)) ∧
+    ∀ ps, poolPadSp (.explicit ps) sp window strides' = ps := by
+  have e := poolGeomGen_ok false shape window strides pad _ h
+  subst e
+  refine ⟨rfl, rfl, ?_, rfl, rfl, fun _ => rfl⟩
+  cases pad <;> rfl
+
+/-- pooling an all-ones array with the same geometry (what `avg_pool(count_include_pad=False)` divides by) counts
+exactly the window positions that fall inside the data -/
+theorem pooled_ones_counts_in_bounds (shape : List Nat) (g : PoolGeom) (o : List Nat) :
+    pooledOnes shape g o = (windowSrcs shape g o).length := by
+  simp only [pooledOnes, windowSrcs]
+  rw [foldl_count]; simp
+
+/-- `avg_pool_divisor`.  Whatever the padding form (`'SAME'`, `'VALID'` or explicit `(lo, hi)` pairs) and the number of
+batch dimensions: every output element is the sum over the in-bounds window positions, divided by the full window size
+`prod(window)` when `count_include_pad=True` and by the number of in-bounds window positions when it is `False`. -/
+theorem avg_pool_divisor (x : Tensor R) (window strides : List Nat) (pad : PoolPad) (cip : Bool)
+    (outShape : List Nat) (parts : List (R × Nat))
+    (hok : avgPoolParts x window strides pad cip = .ok (outShape, parts)) :
+    ∃ single shape' g, poolGeom x.shape window strides pad = .ok (single, shape', g) ∧
+      parts = (indices (poolOutShape shape' g)).map (fun o =>
+        (sumOver (windowSrcs shape' g o) (x.reshape shape').get,
+         if cip then prod window else (windowSrcs shape' g o).length)) := by
+  simp only [avgPoolParts, bind, Except.bind] at hok
+  cases hg : poolGeom x.shape window strides pad with
+  | error e => simp [hg] at hok
+  | ok r =>
+    obtain ⟨single, shape', g⟩ := r
+    refine ⟨single, shape', g, rfl, ?_⟩
+    simp only [hg, Except.ok.injEq, Prod.mk.injEq] at hok
+    rw [← hok.2]
+    have hs : (sumPool (x.reshape shape') g).shape = poolOutShape shape' g := by
+      simp [sumPool, Tensor.ofFn, Tensor.reshape]
+    rw [hs]
+    apply List.map_congr_left
+    intro o ho
+    have hib : inBounds (poolOutShape shape' g) o = true := by
+      simp only [indices, List.mem_map, List.mem_range] at ho
+      obtain ⟨i, hi, rfl⟩ := ho
+      exact mem_indices_inBounds _ _ hi
+    have hx : (x.reshape shape').shape = shape' := rfl
+    rw [pool_is_window_reduction _ _ _ (by rw [hx]; exact hib), pooled_ones_counts_in_bounds, hx]
+
+/-- the number of in-bounds positions never exceeds the window size … -/
 theorem avg_pool_count_le_window (shape : List Nat) (g : PoolGeom) (o : List Nat) :
     (windowSrcs shape g o).length ≤ prod g.window := by
-  simp only [windowSrcs]
+  simp only [windowSrcs, windowAll]
   exact Nat.le_trans (List.length_filterMap_le _ _) (by simp [indices_length])
 
-/-- one axis: a window that lies entirely inside the data (no padding touched) has all `w` positions in range, so both
-averaging conventions agree there; they differ only at the borders -/
+/-- … and on one axis a window that lies entirely inside the data has all `w` positions in range, so both averaging
+conventions agree there; they differ only at the borders -/
 theorem window_interior_full (n w s lo o : Nat) (h1 : lo ≤ o * s) (h2 : o * s + w ≤ lo + n) :
     ((List.range w).filter (fun t => decide (lo ≤ o * s + t ∧ o * s + t < lo + n))).length = w := by
   have : (List.range w).filter (fun t => decide (lo ≤ o * s + t ∧ o * s + t < lo + n)) = List.range w := by
@@ -801,6 +967,29 @@ theorem window_interior_full (n w s lo o : Nat) (h1 : lo ≤ o * s) (h2 : o * s 
     have := List.mem_range.mp ht
     simp; omega
   rw [this]; simp
+
+/-- `max_pool` / `min_pool` ignore padding: `lax.reduce_window` with init −inf / +inf lets every padded position carry
+the identity of the reduction, so the result is the max / min over the in-bounds window positions only — and the init
+value itself exactly when the window holds padding only -/
+theorem extreme_pool_ignores_padding (isMax : Bool) (x : Tensor Int) (g : PoolGeom) (o : List Nat) :
+    extremeAt isMax x g o =
+      match (windowSrcs x.shape g o).map x.get with
+      | [] => none
+      | v :: rest => some (rest.foldl (fun a b => if isMax then max a b else min a b) v) := by
+  simp only [extremeAt, windowSrcs, extFold_filter]
+  cases hl : (windowAll x.shape g o).filterMap id with
+  | nil => rfl
+  | cons s rest =>
+    simp only [List.foldl_cons, List.map_cons]
+    have e : extCombine isMax none (some (x.get s)) = some (x.get s) := rfl
+    rw [e, extFold_some]
+    simp [List.foldl_map]
+
+example : avgPoolParts (⟨[1, 3, 1], #[2, 4, 6]⟩ : Tensor Int) [2] [1] (.explicit [(1, 0)]) false
+    = .ok ([1, 3, 1], [(2, 1), (6, 2), (10, 2)]) := by decide
+
+example : extremePool true (⟨[1, 3, 1], #[-2, -4, -6]⟩ : Tensor Int) [2] [1] (.explicit [(2, 0)])
+    = .ok ([1, 4, 1], [none, some (-2), some (-2), some (-4)]) := by decide
 
 end pool
 
